@@ -18,6 +18,7 @@ import (
 
 	"github.com/lidofinance/dc4bc/client/api/dto"
 	"github.com/lidofinance/dc4bc/client/types"
+	fsmtypes "github.com/lidofinance/dc4bc/fsm/types"
 	"github.com/lidofinance/dc4bc/fsm/types/requests"
 	"github.com/lidofinance/dc4bc/storage"
 
@@ -421,6 +422,34 @@ func c08Run(t *testing.T, st *vstat.Stats, p c08Plan) (v *viol) {
 				}
 			}
 		}
+		crossStore := false
+		if len(rounds) > 1 && p.Faults%2 == 0 {
+			// a member of another round broadcasts "reconstructed signatures" whose entries name the first round (and, if it
+			// signed a batch, that batch and its message): the message belongs to the round in its envelope, whatever its
+			// payload says - the first round's store must be what the first round's own messages make it
+			other := rounds[len(rounds)-1]
+			batchID, msgID, file := "batch-of-another-round", "doc", "doc"
+			if sigs, err := w.Signatures(0, roundA); err == nil {
+				for b, byMsg := range sigs {
+					for mID, entries := range byMsg {
+						batchID, msgID = b, mID
+						if len(entries) > 0 {
+							file = entries[0].File
+						}
+					}
+				}
+			}
+			entries := []fsmtypes.ReconstructedSignature{{File: file, MessageID: msgID, BatchID: batchID, Username: w.Names[0], DKGRoundID: roundA,
+				Signature: []byte("a signature value made up by a member of another round - ninety-six bytes long, as real ones are !!"), SrcPayload: []byte("payload for determinism")}}
+			data, _ := json.Marshal(entries)
+			if other == foreignRound {
+				kp := world.KeyPairFromSeed([]byte("foreign group key 1"))
+				w.Board.Inject(storage.Message{DkgRoundID: other, Event: "signature_reconstructed", Data: data, Signature: ed25519.Sign(kp.Priv, data), SenderAddr: "dave of another group"})
+			} else {
+				w.PostSigned(p.N-1, other, "signature_reconstructed", data, "")
+			}
+			crossStore = true
+		}
 		w.PollAll()
 		if all := w.Board.All(); len(all) > 0 && p.Faults%3 != 0 {
 			// the log ends with a refused message (a duplicate of an earlier one)
@@ -654,6 +683,9 @@ func c08Run(t *testing.T, st *vstat.Stats, p c08Plan) (v *viol) {
 		st.Class(fmt.Sprintf("rounds=%d", len(rounds)))
 		if deviated {
 			st.Class("deviating-key-announcement")
+		}
+		if crossStore {
+			st.Class("another-round's-signature-broadcast-names-the-first-round")
 		}
 		if foreignRound != "" {
 			st.Class("foreign-round-with-a-colliding-user-name")
